@@ -13,6 +13,7 @@ import XlModel.Lemmas.Calc
 import XlModel.Lemmas.CalcAgree
 import XlModel.Lemmas.CalcInt
 import XlModel.CalcCheck
+import XlModel.CalcRef
 
 namespace XlModel.Props.C08
 open XlModel XlModel.Calc XlModel.Facts.C08 NumOps
@@ -1358,7 +1359,7 @@ theorem sumStep_fold {N : Type} [NumOps N] (cells : List (Spec.Val N)) (s : N)
     (hz : ∀ x : N, add x zero = x)
     (hb : ∀ b, Spec.Val.bool b ∉ cells)
     (ht : ∀ t, Spec.Val.text t ∈ cells → (parse t : Option N) = none)
-    (hnan : ∀ x, Spec.Val.num x ∈ cells → isNaN x = false) :
+    (hnan : ∀ x, Spec.Val.num x ∈ cells → isNaN x = false ∧ isInf x = false) :
     (cells.map toCell).foldl Impl.sumStep s = (Spec.numbers cells).foldl add s := by
   induction cells generalizing s with
   | nil => rfl
@@ -1367,7 +1368,7 @@ theorem sumStep_fold {N : Type} [NumOps N] (cells : List (Spec.Val N)) (s : N)
       (fun x h => hnan x (by simp [h]))
     cases v with
     | bool b => exact absurd (by simp) (hb b)
-    | num x => simp [toCell, Impl.sumStep, Spec.numbers, hnan x (by simp), hr]
+    | num x => simp [toCell, Impl.sumStep, Spec.numbers, (hnan x (by simp)).1, (hnan x (by simp)).2, hr]
     | text t => simp [toCell, Impl.sumStep, Spec.numbers, ht t (by simp), hr]
     | blank => simp [toCell, Impl.sumStep, Spec.numbers, hz, hr]
     | err c => simp [toCell, Impl.sumStep, Spec.numbers, hz, hr]
@@ -1379,10 +1380,87 @@ theorem aggregate_fold_sum_partial {N : Type} [NumOps N] (cells : List (Spec.Val
     (hz : ∀ x : N, add x zero = x)
     (hne : ∀ v ∈ cells, NotErr v) (hb : ∀ b, Spec.Val.bool b ∉ cells)
     (ht : ∀ t, Spec.Val.text t ∈ cells → (parse t : Option N) = none)
-    (hnan : ∀ x, Spec.Val.num x ∈ cells → isNaN x = false) :
+    (hnan : ∀ x, Spec.Val.num x ∈ cells → isNaN x = false ∧ isInf x = false) :
     Impl.aggregate .sum (cells.map toCell) = .ok (Impl.mkNum ((Spec.numbers cells).foldl add zero)) ∧
     Spec.aggregate .sum cells = Spec.mkNum ((Spec.numbers cells).foldl add zero) := by
   simp [Impl.aggregate, Spec.aggregate, firstErr_none cells hne, sumStep_fold cells zero hz hb ht hnan]
+
+theorem avgStep_fold {N : Type} [NumOps N] (cells : List (Spec.Val N)) (c s : N)
+    (hne : ∀ v ∈ cells, NotErr v)
+    (ht : ∀ t, Spec.Val.text t ∈ cells → (parse t : Option N) = none) :
+    (cells.map toCell).foldl Impl.avgStep (c, s) =
+      ((Spec.numbers cells).foldl (fun c _ => add c one) c, (Spec.numbers cells).foldl add s) := by
+  induction cells generalizing c s with
+  | nil => rfl
+  | cons v rest ih =>
+    have hr := fun c' s' => ih c' s' (fun u hu => hne u (by simp [hu])) (fun t h => ht t (by simp [h]))
+    cases v with
+    | err e => exact absurd (hne (.err e) (by simp)) (by simp [NotErr])
+    | num x => simp [toCell, Impl.avgStep, Spec.numbers, hr]
+    | bool b => simp [toCell, Impl.avgStep, Spec.numbers, hr]
+    | blank => simp [toCell, Impl.avgStep, Spec.numbers, hr]
+    | text t =>
+      have := ht t (by simp)
+      by_cases h1 : t = sTRUE ∨ t = sFALSE
+      · simp [toCell, Impl.avgStep, Spec.numbers, h1, hr]
+      · simp [toCell, Impl.avgStep, Spec.numbers, h1, this, hr]
+
+/-- AVERAGE over a range without error cells and without numeric text is the mean of the numbers
+alone on both sides — booleans, blanks and other text are ignored — and `#DIV/0!` on both sides
+when the range holds no number (partial: numeric text is counted by excelize:
+`finding_aggregates`).  `hcnt`: counting the numbers by repeated `+1` does not give 0 (true for
+doubles below 2^53 cells). -/
+theorem aggregate_fold_average_partial {N : Type} [NumOps N] (C : LawfulCmp N) (cells : List (Spec.Val N))
+    (hne : ∀ v ∈ cells, NotErr v)
+    (ht : ∀ t, Spec.Val.text t ∈ cells → (parse t : Option N) = none)
+    (hcnt : Spec.numbers cells ≠ [] →
+      isZero ((Spec.numbers cells).foldl (fun c _ => add c one) (zero : N)) = false) :
+    (Spec.numbers cells = [] →
+      Impl.aggregate .average (cells.map toCell) = .error (.msg (.lit formulaErrorDIV)) ∧
+      Spec.aggregate .average cells = .err .div0) ∧
+    (Spec.numbers cells ≠ [] →
+      Impl.aggregate .average (cells.map toCell) =
+        .ok (Impl.mkNum (div ((Spec.numbers cells).foldl add zero)
+          ((Spec.numbers cells).foldl (fun c _ => add c one) zero))) ∧
+      Spec.aggregate .average cells =
+        Spec.mkNum (div ((Spec.numbers cells).foldl add zero)
+          ((Spec.numbers cells).foldl (fun c _ => add c one) zero))) := by
+  constructor
+  · intro h0
+    simp [Impl.aggregate, Spec.aggregate, firstErr_none cells hne, avgStep_fold cells zero zero hne ht, h0,
+      C.isZero_zero]
+  · intro h1
+    have := hcnt h1
+    simp only [Impl.aggregate, Spec.aggregate, firstErr_none cells hne, avgStep_fold cells zero zero hne ht,
+      this, Bool.false_eq_true, if_false]
+    cases hn : Spec.numbers cells with
+    | nil => exact absurd hn h1
+    | cons x xs => simp
+
+theorem countaStep_fold {N : Type} [NumOps N] (cells : List (Spec.Val N)) (n : Nat)
+    (hne : ∀ v ∈ cells, NotErr v) (ht : Spec.Val.text [] ∉ cells) :
+    (cells.map toCell).foldl Impl.countaStep n = n + Spec.nonBlank cells := by
+  induction cells generalizing n with
+  | nil => rfl
+  | cons v rest ih =>
+    have hr := fun n' => ih n' (fun u hu => hne u (by simp [hu])) (fun h => ht (by simp [h]))
+    cases v with
+    | err e => exact absurd (hne (.err e) (by simp)) (by simp [NotErr])
+    | num x => simp [toCell, Impl.countaStep, Spec.nonBlank, hr]; omega
+    | bool b => simp [toCell, Impl.countaStep, Spec.nonBlank, hr]; omega
+    | blank => simp [toCell, Impl.countaStep, Spec.nonBlank, hr]
+    | text t =>
+      have : t ≠ [] := fun e => ht (by simp [e])
+      simp [toCell, Impl.countaStep, Spec.nonBlank, this, hr]; omega
+
+/-- COUNTA over a range without error cells and without empty-string results counts every
+non-blank cell — numbers, booleans and text alike — on both sides (partial: an error cell and a
+formula cell evaluating to "" are not counted by excelize: findings `agg:COUNTA:*`) -/
+theorem aggregate_fold_counta_partial {N : Type} [NumOps N] (cells : List (Spec.Val N))
+    (hne : ∀ v ∈ cells, NotErr v) (ht : Spec.Val.text [] ∉ cells) :
+    Impl.aggregate .counta (cells.map toCell) = .ok (Impl.mkNum (ofNat (Spec.nonBlank cells))) ∧
+    Spec.aggregate .counta cells = .num (ofNat (Spec.nonBlank cells)) := by
+  simp [Impl.aggregate, Spec.aggregate, countaStep_fold cells 0 hne ht]
 
 /-- clause "MIN, MAX … over arbitrary ranges equal the corresponding fold over the referenced
 cells under Excel's rule that text, booleans and blanks inside a referenced range are ignored":
@@ -1618,6 +1696,46 @@ theorem defname_examples :
     Spec.resolveName defs [114] [83, 50] = some [66] ∧
     Spec.resolveName defs [113] [83, 49] = none := by
   decide +kernel
+
+/-! ## reference resolution (`parseReference`) -/
+
+/-- clause "references resolve to the current content of the referenced cells": absolute, mixed
+and relative spellings denote the same cells — `parseReference` removes every `$` first -/
+theorem resolve_dollar_invariant (sheets : List Str) (cur ref : Str) :
+    Impl.resolveRef sheets cur (ref.filter (· ≠ 36)) = Impl.resolveRef sheets cur ref := by
+  unfold Impl.resolveRef
+  simp [List.filter_filter]
+
+theorem upByte_idem (b : Nat) : upByte (upByte b) = upByte b := by
+  unfold upByte
+  by_cases h : 97 ≤ b ∧ b ≤ 122
+  · have h2 : ¬ (97 ≤ b - 32 ∧ b - 32 ≤ 122) := by omega
+    rw [if_pos h, if_neg h2]
+  · rw [if_neg h, if_neg h]
+
+theorem upper_idem (s : Str) : upper (upper s) = upper s := by
+  simp [upper, List.map_map, Function.comp, upByte_idem]
+
+/-- the sheet part of a reference is matched without regard to (ASCII) case -/
+theorem findSheet_case (sheets : List Str) (name : Str) :
+    Impl.findSheet sheets (upper name) = Impl.findSheet sheets name := by
+  unfold Impl.findSheet
+  simp [upper_idem]
+
+/-- worked instances on the workbook [Sheet1, Sheet2, My Data]: relative / absolute / lower-case /
+sheet-qualified (any case; efp has removed the quotes) spellings of the same cell, a range given
+by opposite corners, a range across two sheets (rejected), a sheet that does not exist -/
+theorem resolve_examples :
+    Impl.resolveRef ([[83, 104, 101, 101, 116, 49], [83, 104, 101, 101, 116, 50], [77, 121, 32, 68, 97, 116, 97]] : List Str) [83, 104, 101, 101, 116, 49] [65, 49] = .ok (false, [[83, 104, 101, 101, 116, 49, 33, 65, 49]]) ∧
+    Impl.resolveRef ([[83, 104, 101, 101, 116, 49], [83, 104, 101, 101, 116, 50], [77, 121, 32, 68, 97, 116, 97]] : List Str) [83, 104, 101, 101, 116, 49] [36, 97, 36, 49] = .ok (false, [[83, 104, 101, 101, 116, 49, 33, 65, 49]]) ∧
+    Impl.resolveRef ([[83, 104, 101, 101, 116, 49], [83, 104, 101, 101, 116, 50], [77, 121, 32, 68, 97, 116, 97]] : List Str) [83, 104, 101, 101, 116, 49] [83, 72, 69, 69, 84, 50, 33, 36, 65, 36, 49] = .ok (false, [[83, 104, 101, 101, 116, 50, 33, 65, 49]]) ∧
+    Impl.resolveRef ([[83, 104, 101, 101, 116, 49], [83, 104, 101, 101, 116, 50], [77, 121, 32, 68, 97, 116, 97]] : List Str) [83, 104, 101, 101, 116, 50] [109, 121, 32, 100, 97, 116, 97, 33, 98, 50] = .ok (false, [[77, 121, 32, 68, 97, 116, 97, 33, 66, 50]]) ∧
+    Impl.resolveRef ([[83, 104, 101, 101, 116, 49], [83, 104, 101, 101, 116, 50], [77, 121, 32, 68, 97, 116, 97]] : List Str) [83, 104, 101, 101, 116, 49] [83, 104, 101, 101, 116, 50, 33, 66, 50, 58, 65, 49] =
+      .ok (true, [[83, 104, 101, 101, 116, 50, 33, 65, 49], [83, 104, 101, 101, 116, 50, 33, 66, 49], [83, 104, 101, 101, 116, 50, 33, 65, 50], [83, 104, 101, 101, 116, 50, 33, 66, 50]]) ∧
+    Impl.resolveRef ([[83, 104, 101, 101, 116, 49], [83, 104, 101, 101, 116, 50], [77, 121, 32, 68, 97, 116, 97]] : List Str) [83, 104, 101, 101, 116, 49] [83, 104, 101, 101, 116, 50, 33, 65, 49, 58, 83, 104, 101, 101, 116, 49, 33, 66, 50] = .error (.msg (.lit Impl.sInvalidRef)) ∧
+    Impl.resolveRef ([[83, 104, 101, 101, 116, 49], [83, 104, 101, 101, 116, 50], [77, 121, 32, 68, 97, 116, 97]] : List Str) [83, 104, 101, 101, 116, 49] [78, 111, 112, 101, 33, 65, 49] = .error (.msg (.lit formulaErrorNAME)) := by
+  refine ⟨by decide +kernel, by decide +kernel, by decide +kernel, by decide +kernel,
+    by decide +kernel, by decide +kernel, by decide +kernel⟩
 
 /-! ## where the current code deviates from Excel: witnesses on the integer instance -/
 
